@@ -273,3 +273,48 @@ def ranks(strings, key):
         ks[s] = k
     order = sorted(set(ks.values()))
     return {s: order.index(k) + 1 for s, k in ks.items()}
+
+
+# ------------------------------------------------------------- long lines
+LONG_SIZES = {'64K-1': lambda r: 65535, '64K': lambda r: 65536, '64K+': lambda r: 65537 + r.randint(0, 30000),
+              '1M+': lambda r: (1 << 20) + r.randint(1, 5000)}
+
+
+def inflate(conc, lines, idx, kind, target):
+    """Render `lines`, with line idx made exactly `target` bytes long: a long
+    value (description), thousands of buckets (one-line list / a line of a
+    multi-line list) or a long comment.  Token strings in conc.vals are updated,
+    so the expectation is computed as for any other rendering."""
+    rng = conc.rng
+    out = [conc.line(ln) for ln in lines]
+    ln, text = lines[idx], out[idx]
+    need = target - len(text.encode('utf-8'))
+    if kind == 'comment':
+        body = rng.choice(['# ', '#', '  # ']) + 'title: no field {a,b} } --- '
+        out[idx] = body + 'c' * (target - len(body))
+        return out
+    if need <= 0:
+        return out
+    if kind == 'description':
+        key = ('v', _h(ln['val']), ln['key'])
+        old = conc.vals[key]
+        parts, n = [], 0
+        while n + 12 < need:
+            w = ' ' + rng.choice(['lorem', 'ipsum', 'gopls', 'editor', 'telemetry', 'a:b', '---'])
+            parts.append(w)
+            n += len(w)
+        fill = ''.join(parts) + 'x' * (need - n)
+        at = text.index(old, text.index(':') + 1)
+    else:
+        tok = ln['bs'][1] if kind == 'buckets' else ln['bs'][0]
+        key = ('b', _h(tok))
+        old = conc.vals[key]
+        n = max(0, need // 7 - 1)
+        fill = ''.join(',k%05d' % (i % 100000) for i in range(n))
+        r = need - len(fill)
+        fill += (',' + 'z' * (r - 1)) if r >= 2 else 'z' * r
+        at = text.index(old, text.index('{') + 1 if kind == 'buckets' else 0)
+    conc.vals[key] = old + fill
+    out[idx] = text[:at] + old + fill + text[at + len(old):]
+    assert len(out[idx].encode('utf-8')) == target, (len(out[idx].encode('utf-8')), target)
+    return out
